@@ -28,14 +28,16 @@ type LangDef struct {
 }
 
 type LemmaDef struct {
-	Name   string
-	Kind   string // subset, disjoint, equal, nonempty
-	Args   []ast.Expr
-	Text   string
-	Serves []string
-	File   string
-	Line   int
-	Known  string // id of a known finding whose region is excluded in the statement
+	Name                             string
+	Kind                             string // subset, disjoint, equal, nonempty
+	Args                             []ast.Expr
+	Text                             string
+	Serves                           []string
+	File                             string
+	Line                             int
+	Known                            string // id of a known finding whose region is excluded in the statement
+	ReplayPkg, ReplayKind, ReplayArg string
+	Also                             []string // further concrete inputs to try on the real code when the lemma fails
 }
 
 func parseLangDef(text, file string, line int) (*LangDef, error) {
@@ -59,6 +61,28 @@ func parseLemmaDef(text, file string, line int) (*LemmaDef, error) {
 	}
 	lm := &LemmaDef{Name: m[1], Text: m[2], File: file, Line: line}
 	body := m[2]
+	// trailing `also "input" "input"...`
+	if k := strings.Index(body, " also "); k >= 0 {
+		rest := strings.TrimSpace(body[k+6:])
+		for len(rest) > 0 && rest[0] == '"' {
+			q, err := strconv.QuotedPrefix(rest)
+			if err != nil {
+				break
+			}
+			u, _ := strconv.Unquote(q)
+			lm.Also = append(lm.Also, u)
+			rest = strings.TrimSpace(rest[len(q):])
+		}
+		body = strings.TrimSpace(body[:k])
+	}
+	// trailing "replay PKG KIND ARG": how to run a counterexample string on the real code
+	if k := strings.Index(body, " replay "); k >= 0 {
+		f := strings.Fields(body[k+8:])
+		if len(f) == 3 {
+			lm.ReplayPkg, lm.ReplayKind, lm.ReplayArg = f[0], f[1], f[2]
+		}
+		body = strings.TrimSpace(body[:k])
+	}
 	// trailing "serves C11 C02"
 	if k := strings.Index(body, " serves "); k >= 0 {
 		lm.Serves = strings.Fields(body[k+8:])
